@@ -34,9 +34,15 @@ REPO = pathlib.Path(os.environ.get("VERIF_REPO", "/repo")).resolve()
 if str(REPO / "src") not in sys.path:
     sys.path.insert(0, str(REPO / "src"))
 OUT = VERIF / "lean" / "NunavutVerif" / "Gen" / "HtmlTpl.lean"
+OUT_REFS = VERIF / "lean" / "NunavutVerif" / "Gen" / "HtmlRefs.lean"
 
 VOID = {"area", "base", "br", "col", "embed", "hr", "img", "input", "link", "meta", "param", "source", "track", "wbr"}
 RAWTEXT = {"script", "style"}
+# attributes whose value is a URL (an expression placed there is in URL context)
+URL_ATTRS = {"href", "src", "action", "formaction", "poster", "cite", "data", "srcset", "xlink:href", "background", "manifest", "ping"}
+# attributes that define an anchor or refer to one (collected into the reference inventory)
+REF_ATTRS = {"id", "for", "data-target", "data-bs-target", "data-parent", "data-bs-parent", "aria-controls", "aria-labelledby",
+             "aria-describedby", "aria-owns", "aria-activedescendant", "list", "form", "headers", "usemap"} | URL_ATTRS
 
 
 class Untranslatable(Exception):
@@ -251,6 +257,9 @@ class HLex:
         self.where = where
         self.closing = False
         self.selfclose = False
+        self.quotes = None   # quoting of each attribute of the current tag: "dq" | "sq" | "bare" (no value)
+        self.rawall = ""     # whole text of the raw-text element, expression holes written as \u27e6canon\u27e7
+        self.rawtpls = set() # templates that contributed text to the current raw-text element
 
     def snapshot(self):
         return (self.mode, self.tag if self.mode != "data" else "")
@@ -272,12 +281,12 @@ class HLex:
             if name in VOID or self.selfclose:
                 if self.selfclose and name not in VOID:
                     self.err(f"self-closing non-void <{name}/>")
-                out.append(("void", name, self.attrs))
+                out.append(("void", name, self.attrs, self.quotes, self.selfclose))
                 self.mode = "data"
             else:
-                out.append(("open", name, self.attrs))
+                out.append(("open", name, self.attrs, self.quotes, False))
                 if name in RAWTEXT:
-                    self.mode, self.rawbuf = "raw", ""
+                    self.mode, self.rawbuf, self.rawall = "raw", "", ""
                     self.tag = name
                 else:
                     self.mode = "data"
@@ -285,7 +294,7 @@ class HLex:
                 out.append(("unsafe", unsafe[0]["id"]))
         if self.mode == "data":
             self.tag = ""
-        self.attrs, self.holes, self.closing, self.selfclose = None, None, False, False
+        self.attrs, self.holes, self.closing, self.selfclose, self.quotes = None, None, False, False, None
 
     def text(self, s, out):
         i, n = 0, len(s)
@@ -315,13 +324,13 @@ class HLex:
                     k = rest.find(">")
                     if k < 0:
                         self.err("declaration not closed inside one template-data chunk")
-                    out.append(("decl",))
+                    out.append(("decl", rest[:k + 1]))
                     i = j + k + 1
                 elif rest[:2] == "</" and len(rest) > 2 and rest[2].isalpha():
-                    self.mode, self.tag, self.closing, self.attrs, self.holes = "tagname", "", True, [], []
+                    self.mode, self.tag, self.closing, self.attrs, self.holes, self.quotes = "tagname", "", True, [], [], []
                     i = j + 2
                 elif len(rest) > 1 and rest[1].isalpha():
-                    self.mode, self.tag, self.closing, self.attrs, self.holes = "tagname", "", False, [], []
+                    self.mode, self.tag, self.closing, self.attrs, self.holes, self.quotes = "tagname", "", False, [], [], []
                     i = j + 1
                 else:
                     self.err(f"stray '<' in template text: {rest[:20]!r}")
@@ -349,6 +358,7 @@ class HLex:
             elif m == "attrname":
                 if c.isspace() or c in "/>":
                     self.attrs.append((self.attr.lower(), None))
+                    self.quotes.append("bare")
                     self.mode = "tag"
                 elif c == "=":
                     self.mode = "beforeval"
@@ -376,6 +386,7 @@ class HLex:
                 else:
                     self._lit(s[i:j])
                     self.attrs.append((self.attr.lower(), self.val))
+                    self.quotes.append("dq" if m == "attrdq" else "sq")
                     self.val = None
                     self.mode = "tag"
                     i = j + 1
@@ -384,12 +395,19 @@ class HLex:
                 j = low.find("</" + self.tag, i)
                 if j < 0:
                     self.rawbuf += s[i:]
+                    self.rawall += s[i:]
+                    if s[i:].strip():
+                        self.rawtpls.add(self.where().rsplit(":", 1)[0])
                     i = n
                 else:
                     k = s.find(">", j)
                     if k < 0 or s[j + 2 + len(self.tag):k].strip():
                         self.err(f"malformed </{self.tag}> in template text")
-                    self.rawbuf = ""
+                    self.rawall += s[i:j]
+                    if s[i:j].strip():
+                        self.rawtpls.add(self.where().rsplit(":", 1)[0])
+                    out.append(("rawtext", self.tag, self.rawall, sorted(self.rawtpls)))
+                    self.rawbuf, self.rawall, self.rawtpls = "", "", set()
                     out.append(("close", self.tag))
                     self.mode, self.tag = "data", ""
                     i = k + 1
@@ -399,12 +417,21 @@ class HLex:
     def _check_amp(self, s):
         import re
         for m in re.finditer(r"&", s):
-            if not re.match(r"&(#[0-9]+|#[xX][0-9a-fA-F]+|[A-Za-z][A-Za-z0-9]*);", s[m.start():]):
+            mm = re.match(r"&(#[0-9]+|#[xX][0-9a-fA-F]+|[A-Za-z][A-Za-z0-9]*);", s[m.start():])
+            if not mm:
                 self.err(f"bare '&' in template text: {s[m.start():m.start() + 20]!r}")
+            if self.charrefs is not None:
+                self.charrefs.append(("data", mm.group(0)))
+
+    charrefs = None   # set by the translator: list collecting (where, text) of every '&' of the constant template text
 
     def _lit(self, s):
         if not s:
             return
+        import re
+        for m in re.finditer(r"&[A-Za-z0-9#]*;?", s):
+            if self.charrefs is not None:
+                self.charrefs.append((f"{self.tag}@{self.attr}", m.group(0) + s[m.end():m.end() + 1]))
         if self.val and self.val[-1][0] == "lit":
             self.val[-1] = ("lit", self.val[-1][1] + s)
         else:
@@ -422,6 +449,8 @@ class HLex:
                 if jsq is None:
                     self.err(f"expression in event-handler attribute {self.attr!r} outside a JS string literal")
                 return "attrJs", f"{self.tag}@{self.attr} in JS {jsq}-string"
+            if self.attr.lower() in URL_ATTRS:
+                return "attrUrl", f"{self.tag}@{self.attr} after {lit!r}"
             return ("attrDq" if m == "attrdq" else "attrSq"), f"{self.tag}@{self.attr}"
         if m == "raw":
             if self.tag == "script":
@@ -443,6 +472,7 @@ class HLex:
             return
         if m == "raw":
             self.rawbuf += "x"
+            self.rawall += "\u27e6" + leaf["canon"] + "\u27e7"
             if leaf["unsafe"]:
                 out.append(("unsafe", leaf["id"]))
             return
@@ -484,6 +514,16 @@ def js_string_state(src):
 # ----------------------------------------------------------------------------------------------------------------
 # the walk
 # ----------------------------------------------------------------------------------------------------------------
+class _Sink:
+    """Collector handed to the lexer: every '&' of the constant text, tagged with the scope being walked."""
+
+    def __init__(self, tr, tpl):
+        self.tr, self.tpl = tr, tpl
+
+    def append(self, item):
+        self.tr.charrefs.append({"scope": self.tr.scope, "tpl": self.tr.cur[0], "where": item[0], "text": item[1]})
+
+
 class Translator:
     def __init__(self, gen, env, ns, type_map, variant_envs=()):
         from nunavut.jinja.jinja2 import nodes
@@ -500,6 +540,13 @@ class Translator:
         self.param_vals = {}    # (macrokey, param) -> list of Val alternatives (fixpoint)
         self.bindings = {}      # (macrokey, param) -> set of canon strings
         self.hrefs, self.ids = [], []
+        # the reference inventory and the facts about the constant markup (round 2)
+        self.refs = []          # every id / reference / URL / event-handler attribute: scope, tag, attr, guards, parts
+        self.tagfacts = []      # every tag of the constant template text: scope, kind, name, [(attribute, quoting)]
+        self.charrefs = []      # every '&' of the constant template text: (scope, where, text)
+        self.rawtexts = []      # every raw-text element: (scope, tag, text with holes)
+        self.decls = []         # every <!…> declaration: (scope, text)
+        self.scope = "?"
         self.changed = False
         self.uncalled = []
         self.guards = []        # tests of the enclosing if-branches (canonical text; "else" for an else branch)
@@ -712,9 +759,12 @@ class Translator:
                         raise Untranslatable(f"{self.where()}: loop target")
                     sc_b["vars"][t.name] = [Val("obj", t.name)]
                 # two passes so that a `set` at the end of the body is seen at its beginning
-                mark = (len(self.leaves), len(self.hrefs), len(self.ids))
+                extra = (self.refs, self.tagfacts, self.charrefs, self.rawtexts, self.decls)
+                mark = (len(self.leaves), len(self.hrefs), len(self.ids)) + tuple(len(x) for x in extra)
                 self.walk(node.body, sc_b, lex, tpl)
                 del self.leaves[mark[0]:], self.hrefs[mark[1]:], self.ids[mark[2]:]
+                for x, k in zip(extra, mark[3:]):
+                    del x[k:]
                 body_items = self.walk(node.body, sc_b, lex, tpl)
                 if lex.snapshot() != s0:
                     raise Untranslatable(f"{self.where()}: a loop body changes the HTML lexer state")
@@ -827,16 +877,26 @@ class Translator:
         out = []
         for t in toks:
             if t[0] in ("open", "void"):
+                self.tagfacts.append({"scope": self.scope, "tpl": tpl, "kind": "selfclose" if t[4] else t[0], "name": t[1],
+                                      "attrs": [(an, q) for (an, _), q in zip(t[2] or [], t[3] or [])]})
                 for an, parts in t[2] or []:
                     if parts is None:
                         continue
+                    if an in REF_ATTRS or an.startswith("on") or (an == "name" and t[1] != "meta"):
+                        self.refs.append({"scope": self.scope, "tpl": tpl, "tag": t[1], "attr": an, "guards": list(self.guards),
+                                          "parts": [list(x) for x in parts]})
                     if an == "href":
                         self.hrefs.append({"tpl": tpl, "line": self.cur[1], "tag": t[1], "parts": parts, "guards": list(self.guards)})
                     if an == "id":
                         self.ids.append({"tpl": tpl, "line": self.cur[1], "tag": t[1], "parts": parts})
                 out.append((t[0], t[1]))
             elif t[0] == "close":
+                self.tagfacts.append({"scope": self.scope, "tpl": tpl, "kind": "close", "name": t[1], "attrs": []})
                 out.append(("close", t[1]))
+            elif t[0] == "rawtext":
+                self.rawtexts.append({"scope": self.scope, "tpl": "+".join(t[3]) or tpl, "tag": t[1], "text": t[2], "guards": list(self.guards)})
+            elif t[0] == "decl":
+                self.decls.append({"scope": self.scope, "tpl": tpl, "text": t[1]})
             elif t[0] == "unsafe":
                 out.append(("unsafe", t[1]))
             # text / comment / decl contribute no tag events
@@ -856,6 +916,8 @@ class Translator:
         for a in m.args:
             sc["vars"][a.name] = self.param_vals.get((key, a.name)) or [Val("const", a.name)]
         lex = HLex(self.where)
+        self.scope = f"macro:{name}"
+        lex.charrefs = _Sink(self, tpl)
         items = self.walk(m.body, sc, lex, tpl)
         if lex.mode != "data":
             raise Untranslatable(f"{tpl}: macro {name} ends inside a tag (lexer mode {lex.mode})")
@@ -866,6 +928,7 @@ class Translator:
         for _round in range(8):
             self.changed = False
             self.leaves, self.hrefs, self.ids = [], [], []
+            self.refs, self.tagfacts, self.charrefs, self.rawtexts, self.decls = [], [], [], [], []
             self.bindings = {}
             root_terms = {}
             for r in roots:
@@ -873,6 +936,8 @@ class Translator:
                 sc = self.root_scope(r)
                 self.import_macros(ast, r, sc)
                 lex = HLex(self.where)
+                self.scope = f"root:{r}"
+                lex.charrefs = _Sink(self, r)
                 root_terms[r] = self.walk(ast.body, sc, lex, r)
                 if lex.mode != "data":
                     raise Untranslatable(f"{r}: template ends inside a tag (lexer mode {lex.mode})")
@@ -908,8 +973,8 @@ def lean_str(s):
             out.append("\\n")
         elif ch == "\t":
             out.append("\\t")
-        elif ord(ch) < 32 or ord(ch) > 126:
-            out.append("\\u{%x}" % ord(ch))
+        elif ord(ch) < 32 or ord(ch) == 127:
+            out.append("\\u%04x" % ord(ch))
         else:
             out.append(ch)
     return '"' + "".join(out) + '"'
@@ -1015,6 +1080,7 @@ def translate():
             "hrefs": tr.hrefs,
             "ids": tr.ids,
             "bindings": {f"{k[0][1]}.{k[1]}": sorted(v) for k, v in sorted(tr.bindings.items())},
+            "inventory": inventory(tr, sorted(root_terms)),
             "macros": [{"id": i, "tpl": k[0], "name": k[1], "called": k in macro_terms, "term": to_json_term(macro_terms.get(k, []))}
                        for k, i in sorted(tr.macro_ids.items(), key=lambda kv: kv[1])],
             "roots": [{"name": r, "term": to_json_term(root_terms[r])} for r in sorted(root_terms)],
@@ -1028,6 +1094,186 @@ def translate():
             macro_terms.setdefault(k, [])   # never called: contributes to no page
         model["tags"] = [t for t, _ in sorted(tags.items(), key=lambda kv: kv[1])]
         return model, root_terms, macro_terms, tr, tags
+
+
+# ----------------------------------------------------------------------------------------------------------------
+# round 2: the reference inventory and the facts about the constant markup
+# ----------------------------------------------------------------------------------------------------------------
+HOLE_RE = None
+
+
+def split_holes(text):
+    """'ab\u27e6x\u27e7c' -> [("lit","ab"),("ex","x"),("lit","c")]"""
+    import re
+    out = []
+    for k, piece in enumerate(re.split("\u27e6(.*?)\u27e7", text)):
+        if k % 2:
+            out.append(["ex", piece])
+        elif piece:
+            out.append(["lit", piece])
+    return out
+
+
+def js_lookups(text):
+    """Every DOM lookup by id / selector in a script: (function, quote, argument parts).  A lookup whose argument is not a
+    literal (a variable, `window.location.hash`) is reported with quote '' and the argument expression as one literal."""
+    import re
+    out = []
+    for m in re.finditer(r"\b(getElementById|querySelectorAll|querySelector)\s*\(", text):
+        i = m.end()
+        while i < len(text) and text[i].isspace():
+            i += 1
+        q = text[i] if i < len(text) else ""
+        if q in "\"'`":
+            j = i + 1
+            while j < len(text) and text[j] != q:
+                if text[j] == "\u27e6":     # an expression hole is opaque
+                    j = text.index("\u27e7", j)
+                j += 2 if text[j] == "\\" else 1
+            if j >= len(text):
+                raise Untranslatable("script: unterminated string literal in a DOM lookup")
+            out.append([m.group(1), q, split_holes(text[i + 1:j])])
+        else:
+            depth, j = 0, i
+            while j < len(text) and not (text[j] == ")" and depth == 0):
+                depth += text[j] == "("
+                depth -= text[j] == ")"
+                j += 1
+            out.append([m.group(1), "", [["lit", text[i:j].strip()]]])
+    return out
+
+
+def css_id_selectors(text):
+    """ids used in selectors of a style sheet (preludes of rule sets; declarations and at-rule preludes are skipped)."""
+    import re
+    out, i, n = [], 0, len(text)
+    text = re.sub(r"/\*.*?\*/", " ", text, flags=re.S)
+    n = len(text)
+    stack = []          # "at" (at-rule block: contains rule sets) | "decl" (declaration block)
+    start = 0
+    while i < n:
+        c = text[i]
+        if c == "{":
+            prelude = text[start:i].strip()
+            if stack and stack[-1] == "decl":
+                raise Untranslatable("style: nested block inside a declaration block")
+            if prelude.startswith("@"):
+                stack.append("at" if re.match(r"@(media|supports|layer|container|document)\b", prelude) else "decl")
+            else:
+                out += re.findall(r"#(-?[A-Za-z_][A-Za-z0-9_-]*)", prelude)
+                stack.append("decl")
+            start = i + 1
+        elif c == "}":
+            if not stack:
+                raise Untranslatable("style: unbalanced '}'")
+            stack.pop()
+            start = i + 1
+        elif c == ";" and (not stack or stack[-1] == "at"):
+            start = i + 1
+        i += 1
+    if stack:
+        raise Untranslatable("style: unbalanced '{'")
+    return out
+
+
+def inventory(tr, roots):
+    import hashlib
+    import re
+    inv = {"refs": tr.refs, "tagfacts": tr.tagfacts, "charrefs": tr.charrefs, "decls": tr.decls}
+    raws, lookups, css = [], [], []
+    for r in tr.rawtexts:
+        asset = "assets/" in r["tpl"]
+        if asset and "+" in r["tpl"]:
+            raise Untranslatable(f"raw-text element mixes a bundled asset with template text: {r['tpl']}")
+        txt = r["text"]
+        raws.append({"scope": r["scope"], "tpl": r["tpl"], "tag": r["tag"], "length": len(txt), "holes": txt.count("\u27e6"),
+                     "comment_open": "<!--" in txt, "sha": hashlib.sha256(txt.encode()).hexdigest()[:16], "asset": asset,
+                     "guards": r["guards"]})
+        if asset:
+            continue
+        if r["tag"] == "script":
+            for f, q, parts in js_lookups(txt):
+                lookups.append({"scope": r["scope"], "tpl": r["tpl"], "func": f, "quote": q, "parts": parts})
+        else:
+            for ident in css_id_selectors(txt):
+                css.append({"scope": r["scope"], "tpl": r["tpl"], "id": ident})
+    inv["rawtexts"], inv["js_lookups"], inv["css_ids"] = raws, lookups, css
+    funcs = []
+    for r in tr.rawtexts:
+        if "assets/" not in r["tpl"] and r["tag"] == "script":
+            for m in re.finditer(r"\bfunction\s+([A-Za-z_$][\w$]*)\s*\(([^)]*)\)", r["text"]):
+                funcs.append({"scope": r["scope"], "tpl": r["tpl"], "name": m.group(1), "params": " ".join(m.group(2).split())})
+    inv["js_functions"] = funcs
+    heads = []
+    for r in roots:
+        sc = f"root:{r}"
+        tf = [t for t in tr.tagfacts if t["scope"] == sc]
+        dc = [d for d in tr.decls if d["scope"] == sc]
+        names = [t["name"] for t in tf if t["kind"] != "close"]
+        charset = any(t["name"] == "meta" and any(a == "charset" for a, _ in t["attrs"]) for t in tf)
+        heads.append({"root": r, "empty": not tf and not dc,
+                      "doctype": bool(dc) and re.fullmatch(r"<!doctype\s+html\s*>", dc[0]["text"], re.I) is not None and len(dc) == 1,
+                      "first_tags": names[:3], "title": "title" in names, "charset": charset})
+    inv["heads"] = heads
+    return inv
+
+
+def render_refs_lean(model):
+    """Gen/HtmlRefs.lean: the reference inventory and the facts about the constant markup."""
+    inv = model["inventory"]
+    b = lambda x: "true" if x else "false"
+    sl = lambda xs: "[" + ", ".join(lean_str(x) for x in xs) + "]"
+    L = []
+    L.append("import NunavutVerif.Model.HtmlPage")
+    L.append("/-!")
+    L.append("GENERATED by translate/htmltpl.py from the HTML templates of the tree under check — do not edit.")
+    L.append("The reference inventory (every attribute that defines an anchor, refers to one, holds a URL or an event handler;")
+    L.append("every DOM lookup of the templates' own scripts; every id selector of their style sheets) and the facts about the")
+    L.append("constant markup (every tag with its attributes and their quoting, every `&`, every raw-text element, every page head).")
+    L.append("-/")
+    L.append("namespace NunavutVerif.Gen.HtmlRefs")
+    L.append("open NunavutVerif.Html")
+    L.append("")
+    L.append("def refs : List RefRow := [")
+    L.append(",\n".join(f"  ⟨{lean_str(r['scope'])}, {lean_str(r['tag'])}, {lean_str(r['attr'])}, {sl(r['guards'])}, {parts_to_lean(r['parts'])}⟩"
+                        for r in inv["refs"]) + "]")
+    L.append("")
+    L.append("def jsLookups : List JsLookup := [")
+    L.append(",\n".join(f"  ⟨{lean_str(r['tpl'])}, {lean_str(r['func'])}, {lean_str(r['quote'])}, {parts_to_lean(r['parts'])}⟩"
+                        for r in inv["js_lookups"]) + "]")
+    L.append("")
+    L.append("/-- functions declared in the templates' own scripts: (template, name, parameter list) -/")
+    L.append("def jsFunctions : List (String × String × String) := [")
+    L.append(",\n".join(f"  ({lean_str(r['tpl'])}, {lean_str(r['name'])}, {lean_str(r['params'])})" for r in inv["js_functions"]) + "]")
+    L.append("")
+    L.append("/-- ids used in selectors of the templates' own style sheets: (scope, id) -/")
+    L.append("def cssIds : List (String × String) := [" + ", ".join(f"({lean_str(r['scope'])}, {lean_str(r['id'])})" for r in inv["css_ids"]) + "]")
+    L.append("")
+    L.append("def tagFacts : List TagFact := [")
+    L.append(",\n".join(f"  ⟨{lean_str(t['scope'])}, {lean_str(t['kind'])}, {lean_str(t['name'])}, [" +
+                        ", ".join(f"({lean_str(a)}, {lean_str(q)})" for a, q in t["attrs"]) + "]⟩" for t in inv["tagfacts"]) + "]")
+    L.append("")
+    L.append("/-- every `&` of the constant template text: (where: `data` or `tag@attribute`, text) -/")
+    L.append("def charRefs : List (String × String) := [" + ", ".join(f"({lean_str(r['where'])}, {lean_str(r['text'])})" for r in inv["charrefs"]) + "]")
+    L.append("")
+    L.append("def rawTexts : List RawText := [")
+    L.append(",\n".join(f"  ⟨{lean_str(r['scope'])}, {lean_str(r['tpl'])}, {lean_str(r['tag'])}, {r['length']}, {r['holes']}, {b(r['comment_open'])}, {b(r['asset'])}⟩"
+                        for r in inv["rawtexts"]) + "]")
+    L.append("")
+    L.append("def pageHeads : List PageHead := [")
+    L.append(",\n".join(f"  ⟨{lean_str(h['root'])}, {b(h['empty'])}, {b(h['doctype'])}, {sl(h['first_tags'])}, {b(h['title'])}, {b(h['charset'])}⟩"
+                        for h in inv["heads"]) + "]")
+    L.append("")
+    L.append("end NunavutVerif.Gen.HtmlRefs")
+    return "\n".join(L) + "\n"
+
+
+def write_if_changed(path, text):
+    path.parent.mkdir(parents=True, exist_ok=True)
+    if not path.exists() or path.read_text() != text:
+        path.write_text(text)
+        return True
+    return False
 
 
 def parts_to_lean(parts):
@@ -1113,12 +1359,8 @@ def main():
     if a.print:
         sys.stdout.write(text)
     if not a.no_write:
-        OUT.parent.mkdir(parents=True, exist_ok=True)
-        if not OUT.exists() or OUT.read_text() != text:
-            OUT.write_text(text)
-            print(f"htmltpl: wrote {OUT}")
-        else:
-            print("htmltpl: unchanged")
+        for path, txt in ((OUT, text), (OUT_REFS, render_refs_lean(model))):
+            print(f"htmltpl: wrote {path}" if write_if_changed(path, txt) else f"htmltpl: {path.name} unchanged")
 
 
 if __name__ == "__main__":
